@@ -1393,7 +1393,7 @@ func (w *walker) finish() {
 		e.Key = key(fmt.Sprintf("%s/%s/emit-%s", sc.String(), ctxKey(e.Ctx, e.Slot), SlotNames[e.Kind]))
 	}
 	for _, u := range sc.UserCalls {
-		u.Key = key(fmt.Sprintf("%s/%s/user-%s", sc.String(), ctxKey(u.Ctx, u.Slot), u.Param.Name()))
+		u.Key = key(fmt.Sprintf("%s/%s/user-call", sc.String(), ctxKey(u.Ctx, u.Slot))) // by ordinal, not by parameter name: a rename keeps the key
 	}
 }
 
